@@ -333,6 +333,10 @@ def write_evidence(prop, tier, seed, coverage, wall, violations, assumptions):
         'coverage': coverage, 'assumptions': assumptions, 'wall_s': round(wall, 2), 'violations': violations,
     }
     p = os.path.join(VERIF, 'evidence', prop + '.json')
+    if os.environ.get('VERIF_TAG'):
+        # an experiment against another tree (tools/try_mutant2.sh, tools/archive_eval.sh): evidence/ describes /repo only
+        os.makedirs(os.path.join(BUILD, 'evidence_' + os.environ['VERIF_TAG']), exist_ok=True)
+        p = os.path.join(BUILD, 'evidence_' + os.environ['VERIF_TAG'], prop + '.json')
     with open(p + '.tmp', 'w') as f:
         json.dump(ev, f, indent=1)
     os.replace(p + '.tmp', p)
